@@ -15,6 +15,7 @@ def run(ctx, crate):
     edges, sc = Lg.run_ledger(ctx, crate, "C15", "R-FORMAT-TOTAL", ENTRIES, floor_edges=10)
     ctx.floor("R-FORMAT-TOTAL", len(sc), 7, crate.config, "Display impls in format.rs")
     rule_count_exact(ctx, crate)
+    rule_int_digits_untrimmed(ctx, crate)
 
 
 def rule_count_exact(ctx, crate, rule="R-COUNT-EXACT"):
@@ -35,3 +36,31 @@ def rule_count_exact(ctx, crate, rule="R-COUNT-EXACT"):
     tos = [c for c in b.calls(r"std::string::ToString::to_string", r"core::fmt::rt::Argument::<'_>::new_display") if (c.callee.get("targs") or [""])[0].replace("&", "") == "u64"]
     ctx.check(bool(tos), rule, "integer-digits", b.name, K.fn_loc(b), "the digits come from u64's own decimal formatting",
               "the digits do not come from u64's decimal formatting", cfg)
+
+
+LOSSY_STR = (r"core::str::<impl str>::(trim|trim_end|trim_start|trim_matches|trim_end_matches|trim_start_matches|strip_suffix|strip_prefix|"
+             r"replace|replacen|rsplit_once|rsplit|get|split_at)", r"std::string::String::(truncate|pop|remove|drain|split_off|retain)")
+
+
+def rule_int_digits_untrimmed(ctx, crate, rule="R-COUNT-EXACT"):
+    """Necessary condition of "HumanCount / HumanFloatCount print the standard decimal representation ... with a comma after
+    every third integer digit": the string whose characters are written with the grouping commas (the integer digits)
+    does not pass through an operation that can remove characters (trim*, strip*, replace, truncate ...). Removing
+    trailing zeros is for the fractional part only."""
+    cfg = crate.config
+    n = 0
+    for pat in (r"<format::HumanFloatCount as std::fmt::Display>::fmt", r"<format::HumanCount as std::fmt::Display>::fmt"):
+        b = K.find_one(ctx, crate, rule, pat)
+        if not b:
+            continue
+        for c in b.calls(r"core::str::<impl str>::chars"):
+            # the chars() feeding the loop that writes ','
+            if not any(b.in_loop(w.bb) and "," in [str(x) for x in b.slice_args(w).consts()] for w in b.calls(r"std::fmt::Write::write_char", r"std::fmt::Formatter::<'a>::write_char", r"std::fmt::Formatter::<'a>::write_str", r"std::fmt::Write::write_str")):
+                continue
+            n += 1
+            sl = b.slice_args(c, [0])
+            lossy = sorted({x.path for x in sl.calls if x.matches(*LOSSY_STR)})
+            ctx.check(not lossy, rule, "integer-digits-untrimmed:%s" % b.name.split("::")[1].split(" ")[0], b.name, c.loc(),
+                      "the grouped integer digits are the formatted digits, with nothing removed",
+                      "the integer digits pass through %s before grouping: significant digits (e.g. trailing zeros of 1200) can be removed" % lossy, cfg)
+    ctx.floor(rule, n, 2, cfg, "digit-grouping loops (HumanCount, HumanFloatCount)")
